@@ -1313,13 +1313,14 @@ class Interp:
                 ks = keysort(ek)
             except TypeError:
                 ks = None
-            if ks is not None and ek.tag != "any":
+            if ks is not None:
                 # membership through the (cached) set of the list's elements: one array per list term, so repeated
                 # `x in xs` tests are syntactically the same select
                 cache = self.__dict__.setdefault("_list_sets", {})
                 key = tuple(l.get_id() for l in core.tleaves(cont.tree))
                 if key not in cache:
                     cache[key] = self.to_set_value(None, SV(cont.kind, cont.tree))
+                    cache[("keep", key)] = cont.tree        # keep the terms alive: ids are only unique among live terms
                 sset = cache[key]
                 return z3.Select(sset.tree, to_key(ek, self.coerce(self.tup_to_sv(item), ek, what="membership").tree))
             i = z3.Int(core.fresh_name("i"))
